@@ -1,8 +1,8 @@
 from _common import COMMON_NOTE
 
 META = {'title': 'A playing tape presents each TAP block as the standard loader waveform',
- 'lean_modules': ['ZxVerif.Props.C11', 'ZxVerif.Props.C11X', 'ZxVerif.Props.C11Sys'],
- 'extract': ['TapeConsts'],
+ 'lean_modules': ['ZxVerif.Props.C11', 'ZxVerif.Props.C11X', 'ZxVerif.Props.C11Sys', 'ZxVerif.Props.C11Y'],
+ 'extract': ['TapeConsts', 'TapeMachine'],
  'modelled_code': ['rustzx-core/src/zx/tape/tap.rs (process_clocks, the pulse state machine, pulse constants, '
                    'next_block/next_block_byte feeding it)',
                    'rustzx-core/src/zx/tape/mod.rs (TapeImpl)',
